@@ -17,7 +17,7 @@ PROPERTY = "C04"
 LEVEL = "fault_enumeration"
 RULE = ("one request per scenario against a scripted peer on the virtual clock; scenarios = every fault script over a "
         "16-symbol alphabet up to depth retries+1 (exhaustive) x {udp-rtu, tcp} x keep-alive x (T, R) grid, TCP connect "
-        "outcome scripts, AA55 framing scripts, a silent request after a request under every fault script (at once and 0.4 T later), a stale corrupted datagram arriving while idle at 8 arrival phases, every truncation length of the answer (0 bytes .. frame minus one; once or on every attempt) for the three framings, random deeper multi-request histories with random arrival phase of every peer send (thorough: the exhaustive part again with sends deferred by 2 / 5 loop iterations); distinct = distinct "
+        "outcome scripts, AA55 framing scripts, a silent request after a request under every fault script (at once and 0.4 T later), a stale corrupted datagram arriving while idle at 8 arrival phases, a stale first fragment arriving while idle followed 0 / 0.3 / 0.7 / 1 timeouts later by a silent request, every truncation length of the answer (0 bytes .. frame minus one; once or on every attempt) for the three framings, random deeper multi-request histories with random arrival phase of every peer send (thorough: the exhaustive part again with sends deferred by 2 / 5 loop iterations); distinct = distinct "
         "(transport, keep-alive, R, outcome, #tx, event-kind trace) tuples")
 ASSUMPTIONS = [
     "AF_UNIX socketpairs stand in for UDP/TCP sockets (synchronous in-kernel delivery); OS errors are injected at the "
@@ -25,7 +25,7 @@ ASSUMPTIONS = [
     "virtual clock: asyncio timers fire in deadline order exactly as on a real clock; wall time is only a watchdog",
     "one caller at a time (concurrency is C06)",
 ]
-MUST = ["auto_detected_object_silent", "public_entry_points", "truncated_answer", "stale_datagram_while_idle", "retry_branch", "max_retries_branch", "fragment_rearm", "immediate_retry_invalid", "tcp_connect_error",
+MUST = ["stale_fragment_while_idle", "auto_detected_object_silent", "public_entry_points", "truncated_answer", "stale_datagram_while_idle", "retry_branch", "max_retries_branch", "fragment_rearm", "immediate_retry_invalid", "tcp_connect_error",
         "connect_hang_bounded", "silent_exact", "success", "rejected"]
 EXHAUSTIVE = {"quick": True, "thorough": True}
 
@@ -74,6 +74,15 @@ def scenario_idle_garbage(transport, framing, ka, T, R, D, hops=0):
             "by_reg": {100: [["nowbad", D, hops]], 101: []}, "after": "drop", "fullscript": [["nowbad", D, hops]],
             "then_silent": True, "send_faults": {}, "connect": [],
             "tasks": [{"start": 0.0, "steps": [["read", 100, 2], ["sleep", D], ["read", 101, 2]]}]}
+
+
+def scenario_idle_fragment(transport, framing, ka, T, R, D, gap, hops=0):
+    """request 1 is answered at once; a lone FIRST FRAGMENT of that answer arrives D later (idle socket); request 2 starts `gap` after that
+    and meets a silent peer: whatever the fragment left behind (buffer, timer) must not cost or shorten request 2's transmissions."""
+    return {"transport": transport, "framing": framing, "keep_alive": ka, "T": T, "R": R,
+            "by_reg": {100: [["nowfrag", D, hops]], 101: []}, "after": "drop", "fullscript": [["nowfrag", D, hops], f"gap={gap}"],
+            "then_silent": True, "send_faults": {}, "connect": [],
+            "tasks": [{"start": 0.0, "steps": [["read", 100, 2], ["sleep", D + gap], ["read", 101, 2]]}]}
 
 
 def _strip_tx(sc, data: bytes):
@@ -263,6 +272,11 @@ def run_shard(spec):
             for hops in range(0, 8):        # arrival phase of the stale datagram relative to the caller's wake-up
                 run_case(scenario_idle_garbage(spec["transport"], spec["framing"], spec["ka"], spec["T"], R, D * spec["T"], hops), part)
                 part.count("stale_datagram_while_idle")
+        for D in (0.0, 0.5, 2.5):
+            for gap in (0.0, 0.3, 0.7, 1.0):
+                for hops in (0, 3):
+                    run_case(scenario_idle_fragment(spec["transport"], spec["framing"], spec["ka"], spec["T"], R, D * spec["T"], gap * spec["T"], hops), part)
+                    part.count("stale_fragment_while_idle")
     elif mode == "truncation":
         full = {"rtu": 9, "tcp": 13, "aa55": 9 + 40}[spec["framing"]]      # length of the complete answer to the request used here
         for R in spec["Rs"]:
